@@ -57,20 +57,20 @@ From Coq Require Import List NArith Bool String.
 Open Scope string_scope.
 From ApiFu Require Import Base.Sexp Gen.GoTypes Gen.ClientGenModel Gen.DecodeModel Gen.ClientGenSpec
      Gen.ClientGenMain Gen.ClientGenWitness Gen.ClientGenDeclSafe Gen.LoadSchemaModel Gen.LoadSchemaProofs
-     Gen.ClientGenAgree Gen.ClientGenClauses.
+     Gen.ClientGenAgree Gen.ClientGenFresh Gen.ClientGenClauses.
 Import ListNotations.
 
 (** the generator accepts every operation of the envelope and its output is well formed *)
-Theorem C20_gen_wf_partial : forall S d,
+Theorem C20_gen_wf_partial : forall D S d,
   env S d = true -> schema_loadable S = true -> excl_member_clash S d = false -> decl_safe S d = true ->
-  exists p, generate_real S (doc_valid S d) d = GOk p /\ wf_program p = true.
+  exists p, generate_real D S (doc_valid S d) d = GOk p /\ wf_program p = true.
 Proof. exact real_accepts_wf. Qed.
 
 (** the generator of the current tree and the generator the proofs are carried out on agree when no
     two members of a selection set derive the same field name *)
 Theorem C20_generators_agree : forall S d,
-  env S d = true -> excl_member_clash S d = false -> decl_safe S d = true -> schema_loadable S = true ->
-  generate_real S (doc_valid S d) d = generate_cli no_quirks S (doc_valid S d) d.
+  env S d = true -> excl_member_clash S d = false -> decl_safe S d = true -> forall D, schema_loadable S = true ->
+  generate_real D S (doc_valid S d) d = generate_cli no_quirks S (doc_valid S d) d.
 Proof. exact generate_real_agree. Qed.
 
 (** LoadSchema rebuilds a field type from what the introspection query returns for it: exactly,
@@ -79,14 +79,24 @@ Theorem C20_load_type_roundtrip : forall S t,
   type_loadable S t = true -> get_type S (query_ref typeref_depth (introspect_ref t)) = Some t.
 Proof. exact load_type_roundtrip. Qed.
 
-Theorem C20_load_schema_roundtrip : forall S, schema_loadable S = true -> load_schema S = Some S.
-Proof. exact load_schema_roundtrip. Qed.
+(** ... for the whole schema, deprecated fields and enum values included: the introspection query
+    asks for them (includeDeprecated: true in both places, [the_query]), so whatever members the
+    schema marks as deprecated ([D]) the loaded schema is the schema *)
+Theorem C20_load_schema_roundtrip : forall D S, schema_loadable S = true -> load_schema_q the_query D S = Some S.
+Proof. exact load_schema_deprecated_roundtrip. Qed.
+
+(** asked without includeDeprecated, the server does not list a deprecated field / enum value: the
+    loaded type lacks it (and an operation selecting the field is rejected) *)
+Theorem C20_refuted_without_include_deprecated : forall Qy D tn,
+  (forall f t fs, iq_fields_deprecated Qy = false -> is_dep (dep_fields D) tn f = true -> ~ In (f, t) (listed_fields Qy D tn fs)) /\
+  (forall v vs, iq_values_deprecated Qy = false -> is_dep (dep_values D) tn v = true -> ~ In v (listed_values Qy D tn vs)).
+Proof. exact without_include_deprecated. Qed.
 
 (** ... and not at all beyond (known finding type-ref-deeper-than-introspection-query): the
     command-line generator then reports an error for every document *)
-Theorem C20_refuted_type_ref_depth : forall S valid d n ifs fs f t,
+Theorem C20_refuted_type_ref_depth : forall D S valid d n ifs fs f t,
   In (DObj n ifs fs) (s_types S) -> In (f, t) fs -> (typeref_depth < wrappers t)%nat ->
-  generate_real S valid d = GError.
+  generate_real D S valid d = GError.
 Proof. exact real_too_deep. Qed.
 
 (** the names-only condition excludes the known finding decl-name-clash (struct-counter invariant:
@@ -95,20 +105,38 @@ Theorem C20_decl_safe_sufficient : forall S d,
   schema_ok S = true -> decl_safe S d = true -> excl_decl_clash S d = false.
 Proof. exact decl_safe_excl. Qed.
 
+(** with or without a clash: the names the repaired generator assigns are pairwise distinct - the Go
+    field names of one struct, whatever its members; the Go names of the enum types, which also avoid
+    the reserved identifiers and the <Op>Data / <F>Fragment types; the enum constants, which also
+    avoid the enum types.  (A step towards the main statements without [excl_member_clash]: what is
+    still missing there is the decoding proof over these names.) *)
+Theorem C20_assigned_field_names_distinct : forall fields, NoDup (map snd (assign_names fields)).
+Proof. exact assigned_field_names_distinct. Qed.
+
+Theorem C20_enum_type_names_distinct : forall S d,
+  NoDup (map snd (fst (enum_name_map S d))) /\
+  (forall x, In x (map snd (fst (enum_name_map S d))) -> ~ In x (reserved_identifiers ++ doc_decl_names d)).
+Proof. exact enum_type_names_distinct. Qed.
+
+Theorem C20_enum_const_names_distinct : forall S d,
+  NoDup (map snd (const_name_map S d)) /\
+  (forall x, In x (map snd (const_name_map S d)) -> ~ In x (snd (enum_name_map S d))).
+Proof. exact enum_const_names_distinct. Qed.
+
 (** the same, clause by clause (definitions and the Go rule each clause stands for: ClientGenClauses.v):
     distinct struct members and well-targeted UnmarshalJSON statements, declared references,
     forwarders only to types with the method, identifiers *)
-Theorem C20_gen_wf_clauses_partial : forall S d,
+Theorem C20_gen_wf_clauses_partial : forall D S d,
   env S d = true -> schema_loadable S = true -> excl_member_clash S d = false -> decl_safe S d = true ->
-  exists p, generate_real S (doc_valid S d) d = GOk p /\
+  exists p, generate_real D S (doc_valid S d) d = GOk p /\
             cl_struct_members p /\ cl_references p /\ cl_method_forwarders p /\ cl_identifiers p.
 Proof. exact real_wf_clauses. Qed.
 
 (** decoding any response shaped by a named operation yields exactly the selected leaves *)
-Theorem C20_gen_decodes_partial : forall S d,
+Theorem C20_gen_decodes_partial : forall D S d,
   env S d = true -> schema_loadable S = true -> excl_member_clash S d = false -> decl_safe S d = true ->
   forall p o opname w,
-    generate_real S (doc_valid S d) d = GOk p ->
+    generate_real D S (doc_valid S d) d = GOk p ->
     In o (d_ops d) -> op_name o = Some opname -> conforms S o w = true ->
     exists n v, (forall fuel, (n <= fuel)%nat -> decode_op p fuel opname (json_of w) = DOk v) /\
                 (forall pl, In pl (leaves v) <-> In pl (expected S o w)).
@@ -119,8 +147,8 @@ Theorem C20_gen_invalid_no_output : forall Q S d,
   doc_valid S d = false -> generate Q S (doc_valid S d) d = GRejected.
 Proof. exact gen_invalid_no_output. Qed.
 
-Theorem C20_real_invalid_no_output : forall S d p,
-  doc_valid S d = false -> generate_real S (doc_valid S d) d <> GOk p.
+Theorem C20_real_invalid_no_output : forall D S d p,
+  doc_valid S d = false -> generate_real D S (doc_valid S d) d <> GOk p.
 Proof. exact real_invalid_no_output. Qed.
 
 (** the defects repaired in the repository, reproduced on the model of the code before each
@@ -204,8 +232,12 @@ Print Assumptions C20_gen_wf_partial.
 Print Assumptions C20_decl_safe_sufficient.
 Print Assumptions C20_load_type_roundtrip.
 Print Assumptions C20_load_schema_roundtrip.
+Print Assumptions C20_refuted_without_include_deprecated.
 Print Assumptions C20_refuted_type_ref_depth.
 Print Assumptions C20_real_invalid_no_output.
+Print Assumptions C20_assigned_field_names_distinct.
+Print Assumptions C20_enum_type_names_distinct.
+Print Assumptions C20_enum_const_names_distinct.
 Print Assumptions C20_gen_wf_clauses_partial.
 Print Assumptions C20_gen_decodes_partial.
 Print Assumptions C20_generators_agree.
